@@ -20,6 +20,7 @@ type grunCase struct {
 	sorts []string // sorts[0] is the query (always "t"); the others are ExistO variables
 	eqs   [][2]*gv // equations between values
 	named bool
+	share bool // equal sub-values are one Go object, list prefixes are re-slices of one backing array
 	desc  string
 }
 
@@ -33,7 +34,24 @@ func genGRun(r *rand.Rand) *grunCase {
 	gen := &gvGen{r: r, sorts: sorts}
 	c := &grunCase{sorts: sorts, named: r.Intn(2) == 0}
 	// query bound to a structure over the variables (or left unbound), and some variables bound to values
-	if r.Intn(4) != 0 {
+	c.share = r.Intn(2) == 0
+	switch k := r.Intn(8); {
+	case k == 0:
+	case k <= 2:
+		// a family of prefixes of one list, in several places of the answer (with `share`: slices over one backing array)
+		elems := []*gv{}
+		for n := 2 + r.Intn(2); n > 0; n-- {
+			elems = append(elems, gen.val("t", r.Intn(2), 0))
+		}
+		pre := func(k int) *gv { return &gv{K: "slice", F: append([]*gv{}, elems[:k]...)} }
+		cell := func(l *gv) *gv { return &gv{K: "tstruct", F: []*gv{{K: "tnil"}, {K: "tnil"}, {K: "snil"}, l}} }
+		ks := r.Perm(len(elems) + 1)
+		whole := pre(len(elems))
+		if r.Intn(2) == 0 {
+			ks[0], whole = len(elems), pre(ks[0])
+		}
+		c.eqs = append(c.eqs, [2]*gv{{K: "tvar", I: 0}, {K: "tstruct", F: []*gv{cell(pre(ks[0])), cell(pre(ks[1%len(ks)])), {K: "snil"}, whole}}})
+	default:
 		c.eqs = append(c.eqs, [2]*gv{{K: "tvar", I: 0}, gen.val("t", 1+r.Intn(3), 0)})
 	}
 	for k := 1; k < nv; k++ {
@@ -49,12 +67,12 @@ func genGRun(r *rand.Rand) *grunCase {
 	for _, e := range c.eqs {
 		parts = append(parts, showTerm(e[0].toTerm())+" == "+showTerm(e[1].toTerm()))
 	}
-	c.desc = fmt.Sprintf("gomini.Run query ?0, variables %v, named-placeholders=%v, goal: %s", sorts, c.named, strings.Join(parts, " & "))
+	c.desc = fmt.Sprintf("gomini.Run query ?0, variables %v, named-placeholders=%v, shared-memory-layout=%v, goal: %s", sorts, c.named, c.share, strings.Join(parts, " & "))
 	return c
 }
 
 func runGRun(c *grunCase, rep *Report, idx int) (string, string) {
-	w := &gworld{byPtr: map[uintptr]int{}, named: c.named}
+	w := &gworld{byPtr: map[uintptr]int{}, named: c.named, share: c.share}
 	var st *gomini.State
 	if c.named {
 		st = gomini.NewState(namedCreator)
